@@ -44,6 +44,10 @@ type holder struct {
 	// modifying l.ch, first status must be modified using an atomic operation.
 	// This is the concurrency control.
 	status int64
+
+	// releasedCh is closed by the first call to release. It wakes up a holder
+	// that is waiting to re-acquire its token at the end of block.
+	releasedCh chan struct{}
 }
 
 const (
@@ -56,8 +60,12 @@ const (
 func (h *holder) release() {
 	// If we currently are acquired, release the token. Otherwise, we are either
 	// blocked or already released.
-	if atomic.SwapInt64(&h.status, released) == acquired {
+	prev := atomic.SwapInt64(&h.status, released)
+	if prev == acquired {
 		<-h.l.ch
+	}
+	if prev != released {
+		close(h.releasedCh)
 	}
 }
 
@@ -70,11 +78,19 @@ func (h *holder) block(f func()) {
 
 		// Before returning from f() we must reacquire.
 		defer func() {
-			// If we are still blocked, re-acquire. Otherwise, we just got got released
-			// (and that release used our token we gave up), and should no longer try to
-			// re-acquire.
-			if atomic.CompareAndSwapInt64(&h.status, blocked, acquired) {
-				h.l.ch <- struct{}{}
+			// Take a token before marking ourselves as acquired again: if status
+			// said acquired while we were still waiting for a token, a concurrent
+			// release would give back a token that belongs to another holder.
+			select {
+			case h.l.ch <- struct{}{}:
+				// If we are still blocked, we are acquired again. Otherwise, we just got
+				// released (and that release used our token we gave up), so hand the
+				// token back.
+				if !atomic.CompareAndSwapInt64(&h.status, blocked, acquired) {
+					<-h.l.ch
+				}
+			case <-h.releasedCh:
+				// Released while waiting; no longer try to re-acquire.
 			}
 		}()
 	}
@@ -103,8 +119,9 @@ func Acquire(ctx context.Context) (context.Context, ReleaseFunc) {
 	}
 
 	h := &holder{
-		l:      l,
-		status: acquired,
+		l:          l,
+		status:     acquired,
+		releasedCh: make(chan struct{}),
 	}
 	ctx = context.WithValue(ctx, holderKey{}, h)
 
